@@ -50,6 +50,28 @@ class CFG:
             st.extend(self.blocks[x]["succs"])
         return seen
 
+    def pruned(self, decide):
+        """a copy of this CFG in which two-way branches whose condition `decide(cond node)` evaluates to
+        True/False keep only the matching successor (clang orders successors: true branch first)"""
+        import copy
+        g = copy.copy(self)
+        g.blocks = {}
+        for bid, b in self.blocks.items():
+            nb = dict(b)
+            raw = b["raw_succs"]
+            if len(raw) == 2 and b.get("cond") is not None:
+                v = decide(b["cond"])
+                if v is not None:
+                    keep = raw[0] if v else raw[1]
+                    nb["succs"] = [keep] if isinstance(keep, int) else []
+            g.blocks[bid] = nb
+        g.preds = {i: [] for i in g.blocks}
+        for i, b in g.blocks.items():
+            for s_ in b["succs"]:
+                g.preds[s_].append(i)
+        g.reach_from_entry = g._reach(g.entry)
+        return g
+
     # -- events ----------------------------------------------------------------------------
     def events(self, pred):
         out = []
